@@ -279,7 +279,7 @@ pub fn run_c10(ctx: &Ctx) -> i32 {
 // C13: malformed responses
 
 const C13_STRINGS: [&str; 22] = ["", " ", "\t\n", "_", "_a", " _a", "a_", "a", " a ", "__", "é", "_é", "ab", "a ", "-", "  ", "x", " x ", "éé", "a_b", " ab ", "\n_k"];
-const C13_POS: [&str; 5] = ["attr-key", "attr-value", "event-attr-key", "event-attr-value", "event-type"];
+const C13_POS: [&str; 7] = ["attr-key", "attr-value", "event-attr-key", "event-attr-value", "event-type", "attr-key-with-empty-value", "event-attr-key-with-blank-value"];
 
 fn c13_node(pos: usize, s: &str, idx: usize) -> Node {
     let mut nd = Node { writes: vec![WriteOp::Set(format!("m{}", idx).into_bytes(), b"1".to_vec()), WriteOp::Set(b"pre".to_vec(), b"touched".to_vec())], data: Some(b"dx".to_vec()), ..Default::default() };
@@ -289,7 +289,15 @@ fn c13_node(pos: usize, s: &str, idx: usize) -> Node {
         1 => av = s.into(),
         2 => ek = s.into(),
         3 => evv = s.into(),
-        _ => ety = s.into(),
+        4 => ety = s.into(),
+        5 => {
+            ak = s.into();
+            av = String::new();
+        }
+        _ => {
+            ek = s.into();
+            evv = " ".into();
+        }
     }
     nd.attrs = vec![("first".into(), "1".into()), (ak, av)];
     nd.events = vec![("lead".into(), vec![]), (ety, vec![("e0".into(), "".into()), (ek, evv)])];
@@ -454,7 +462,7 @@ pub fn run_c13(ctx: &Ctx) -> i32 {
     let mut cases: Vec<(String, usize, usize, usize)> = vec![];
     for kind in ["execute", "instantiate", "migrate", "sudo", "reply"] {
         for context in 0..9 {
-            for pos in 0..5 {
+            for pos in 0..C13_POS.len() {
                 for si in 0..C13_STRINGS.len() {
                     cases.push((kind.to_string(), context, pos, si));
                 }
